@@ -9,6 +9,34 @@ sp = import_repo()
 Line, QuadraticBezier, CubicBezier, Arc, Path = sp.Line, sp.QuadraticBezier, sp.CubicBezier, sp.Arc, sp.Path
 
 
+import os as _os
+import random as _random
+
+import numpy as _np
+
+_TYPE_RND = _random.Random(int(_os.environ.get('VERIF_SEED') or 1) * 7919 + 13)
+
+
+def typed(zs, p=0.5):
+    """The same control points in a seeded mix of numeric types (int / float / complex / numpy scalars): the value is unchanged, but
+    numpy scalars do not raise ZeroDivisionError, ints have no rounding, ...  Results must not depend on the spelling."""
+    out = []
+    for z in zs:
+        w = complex(z)
+        if _TYPE_RND.random() > p:
+            out.append(w)
+            continue
+        if w.imag == 0:
+            r = w.real
+            choices = [float(r), _np.float64(r), _np.complex128(w), w]
+            if float(r).is_integer() and abs(r) < 2 ** 53:
+                choices.append(int(r))
+            out.append(_TYPE_RND.choice(choices))
+        else:
+            out.append(_TYPE_RND.choice([w, _np.complex128(w)]))
+    return out
+
+
 def Z(p, scale=1):
     return complex(p[0] / scale if scale != 1 else p[0], p[1] / scale if scale != 1 else p[1])
 
